@@ -34,6 +34,7 @@ type Params struct {
 	Gates    map[string]bool
 	SetupErr bool
 	RbMax    int  // Consumer.Group.Rebalance.Retry.Max (default of the rig: 2)
+	Move     bool // the environment may move partition 0 to another broker once (env:move-leader), e.g. between two sessions
 	Ret      bool // Consumer.Offsets.Retention set (commits travel as v2 requests)
 	CoordEnv bool // the environment may make every coordinator lookup fail for a while (env:coord-down / env:coord-up)
 	CleanErr bool
@@ -54,7 +55,7 @@ func atoi(v url.Values, k string, def int) int {
 func init() {
 	gx.RegisterRig("cg", func(v url.Values) (*gx.Scenario, error) {
 		p := &Params{Members: atoi(v, "m", 1), NParts: atoi(v, "np", 1), N: atoi(v, "n", 2), Mode: v.Get("mode"), NSess: atoi(v, "ns", 1),
-			Strategy: v.Get("strategy"), Init: v.Get("init"), SetupErr: atoi(v, "setuperr", 0) == 1, RbMax: atoi(v, "rbmax", 2), CoordEnv: atoi(v, "coordenv", 0) == 1, Ret: atoi(v, "ret", 0) == 1, CleanErr: atoi(v, "cleanerr", 0) == 1, CloseAny: atoi(v, "closeany", 0) == 1}
+			Strategy: v.Get("strategy"), Init: v.Get("init"), SetupErr: atoi(v, "setuperr", 0) == 1, RbMax: atoi(v, "rbmax", 2), CoordEnv: atoi(v, "coordenv", 0) == 1, Ret: atoi(v, "ret", 0) == 1, Move: atoi(v, "move", 0) == 1, CleanErr: atoi(v, "cleanerr", 0) == 1, CloseAny: atoi(v, "closeany", 0) == 1}
 		if p.Mode == "" {
 			p.Mode = "all"
 		}
@@ -113,6 +114,7 @@ type member struct {
 }
 
 type rig struct {
+	moved     bool // env:move-leader has happened
 	coordEver bool // the coordinator-down period has begun (it happens at most once per execution)
 	p         *Params
 	c         *gx.Ctl
@@ -246,7 +248,11 @@ func run(c *gx.Ctl, p *Params) *gx.Outcome {
 	r := &rig{p: p, c: c}
 	cl := simkafka.New(c)
 	r.cl = cl
-	for b := 1; b <= p.NParts+1; b++ {
+	nb := p.NParts + 1
+	if p.Move {
+		nb++ // a spare broker that partition 0 can move to
+	}
+	for b := 1; b <= nb; b++ {
 		cl.AddBroker(int32(b))
 	}
 	var leaders []int32
@@ -512,6 +518,7 @@ func (r *rig) actors() []gx.Actor {
 			acts = append(acts, gx.Actor{Label: "close:" + name, Rank: 5, Variants: []gx.Variant{{Do: func() {
 				r.mu.Lock()
 				m.closing = true
+				r.log = append(r.log, hev{kind: "app-close", member: m.idx, sess: m.started - 1})
 				r.mu.Unlock()
 				close(m.closeCh)
 				go func() {
@@ -538,6 +545,18 @@ func (r *rig) actors() []gx.Actor {
 	}
 	if anyRunning && r.hbWaiting() && r.c.TrailingAny(futileLabels...) < futileCap {
 		acts = append(acts, gx.Actor{Label: "tick:heartbeat", Rank: 3, Variants: []gx.Variant{{Do: func() { time.Sleep(time.Second) }}}})
+	}
+	if p.Move && !r.moved && !closingNow {
+		// partition 0 moves to the spare broker (a reassignment): whoever fetches from the old leader is told NOT_LEADER, whoever
+		// asks for metadata learns the new one
+		acts = append(acts, gx.Actor{Label: "env:move-leader", Rank: 7, Variants: []gx.Variant{{Do: func() {
+			r.mu.Lock()
+			r.moved = true
+			r.mu.Unlock()
+			part := r.cl.Part("t", 0)
+			part.Leader = int32(p.NParts + 2)
+			part.Replicas = []int32{int32(p.NParts + 2)}
+		}}}})
 	}
 	if p.CoordEnv {
 		// a period in which no broker knows the group's coordinator: ONE environment state, not one fault per lookup
@@ -651,6 +670,7 @@ func (r *rig) judge() *gx.Outcome {
 		name := fmt.Sprintf("%c%d", 'A'+k.m, k.s)
 		nSetup, nCleanup, started, ended := 0, 0, map[int32]int{}, map[int32]int{}
 		cleanupSeen, returned := false, false
+		appEnded := false // the application cancelled or closed while this session was running
 		var setup *hev
 		for i := range evs {
 			e := evs[i]
@@ -686,7 +706,10 @@ func (r *rig) judge() *gx.Outcome {
 						out.Violate("C07", "claim-not-assigned", "session %s: ConsumeClaim for partition %d which is not among the session's claims %s; %s", name, e.part, setup.claims, lines())
 					}
 				}
+			case "app-cancel", "app-close":
+				appEnded = true
 			case "app-cancel-idle":
+				appEnded = true
 				// "one ConsumeClaim per assigned partition unless the session is already ending; the session ends when a claim
 				// ends": a claim that could not start ends the session by itself. Here the application had to cancel an idle
 				// session in which an assigned partition never got its ConsumeClaim
@@ -709,6 +732,16 @@ func (r *rig) judge() *gx.Outcome {
 				}
 			case "consume-return":
 				returned = true
+				if setup != nil && !appEnded && len(r.cl.FaultsTaken) == 0 && p.Mode != "ret" && p.Members == 1 && !p.SetupErr {
+					// (one member only: with two, the other one's joining or leaving ends a session legitimately before its claims start)
+					// no broker fault anywhere in this execution, and the application did not end the session: nothing can have
+					// kept a claimed partition from getting its ConsumeClaim
+					for pt := int32(0); pt < int32(p.NParts); pt++ {
+						if strings.Contains(setup.claims, fmt.Sprint(pt)) && started[pt] == 0 {
+							out.Violate("C07", "claim-missing-without-fault", "session %s: partition %d is among the session's claims %s but no ConsumeClaim started for it, although no broker answered with a fault and the application did not end the session; %s", name, pt, setup.claims, lines())
+						}
+					}
+				}
 				if nSetup > 1 || nCleanup > 1 {
 					out.Violate("C07", "hook-ran-twice", "session %s: Setup ran %d times, Cleanup %d times; %s", name, nSetup, nCleanup, lines())
 				}
